@@ -555,6 +555,11 @@ func (r *Runner) Execute(obj interface{}) (res Result) {
 	}
 	res.Val = v
 	res.Raw = out
+	// what a run returned is the host's from then on: later runs (on other
+	// records) do not change it
+	if len(r.kept) < 64 && out != nil {
+		r.kept = append(r.kept, keptCall{args: []object.Object{out}, desc: describeArgs([]object.Object{out}), what: "an earlier run returned the object"})
+	}
 	return
 }
 
